@@ -567,6 +567,15 @@ def run(prog, ctx):
     n_z = 0
     n_z += C.coupled_store_rule(res, prog, "C02.Z", "hll::aux_map::AuxMap", "entries", "lg_size")
     res.rule("C02.Z", n_z, 0, "table / size field pairs")
+    # the list -> set -> array chain closes for every lg_k (C18.K chain, by value): a sketch that never builds its register array
+    # no longer holds the per-slot maxima the property describes
+    try:
+        from .C18 import hll_chain
+        ch = hll_chain(prog)
+    except Exception as ex:
+        ch = ("undecided", repr(ex))
+    res.tri(None if ch[0] == "undecided" else ch[0] == "ok", "C02.C", "C02.C|hll|chain", "list / set / array promotion chain: %s" % (ch[1],), ch[2] if len(ch) > 2 else None)
+    res.rule("C02.C", 1, 1, "list / set / array promotion chain (C18.K chain)")
     res.explanation = ("structural rules over the MIR of the %d functions reachable from HllSketch::update: guarded strict max-write, slot "
                        "formula (evaluated on %d grid points), estimator pairing, replay loops, 4-bit encoding agreement, probe geometry, "
                        "dispatch completeness" % (len(reach), 18 * 12))
